@@ -46,6 +46,50 @@ Fixpoint side_write_loop (fuel : nat) (chunk : N) (buf : bytes) (n : N) (frames 
 Definition side_write (chunk : N) (buf : bytes) : wres :=
   side_write_loop (S (length buf)) chunk buf 0 [].
 
+(** ** A Write that fails part-way
+
+    [fail_at]: the index of the frame at which something fails, [how]: which
+    of the three calls: NextWriter (`return n, err`), the message writer's
+    Write after accepting [w] bytes (`n += written; return n, err`), or its
+    Close (`n += len(toSend)` has already been done: `return n, err`). *)
+Inductive wfail := FNext | FWrite (w : N) | FClose.
+
+Inductive wres_f :=
+| WOkF (n : N) (frames : list bytes)
+| WErrF (n : N) (frames : list bytes) (part : bytes)
+    (* returned n with a non-nil error; the messages completed before the failure; the bytes of the
+       failing message that were accepted before it failed *)
+| WFuelF.
+
+Fixpoint side_write_loop_f (fuel : nat) (chunk : N) (buf : bytes) (n : N) (frames : list bytes)
+  (fail_at : option nat) (how : wfail) : wres_f :=
+  if n <? lenN buf then
+    match fuel with
+    | O => WFuelF
+    | S f =>
+        let e0 := n + chunk in
+        let e := if lenN buf <? e0 then lenN buf else e0 in
+        let to_send := firstn (N.to_nat (e - n)) (skipn (N.to_nat n) buf) in
+        match fail_at with
+        | Some O =>
+            match how with
+            | FNext => WErrF n frames []
+            | FWrite w =>
+                let k := N.to_nat (N.min w (lenN to_send)) in
+                WErrF (n + lenN (firstn k to_send)) frames (firstn k to_send)
+            | FClose => WErrF (n + lenN to_send) frames to_send
+            end
+        | Some (S k) =>
+            side_write_loop_f f chunk buf (n + lenN to_send) (frames ++ [to_send]) (Some k) how
+        | None =>
+            side_write_loop_f f chunk buf (n + lenN to_send) (frames ++ [to_send]) None how
+        end
+    end
+  else WOkF n frames.
+
+Definition side_write_f (chunk : N) (buf : bytes) (fail_at : option nat) (how : wfail) : wres_f :=
+  side_write_loop_f (S (length buf)) chunk buf 0 [] fail_at how.
+
 (** * Websocket messages as the reader sees them *)
 
 Inductive msg :=
@@ -271,6 +315,7 @@ Inductive tmode := TLegacy | TSide.   (* Siding and Siding+DialWithAddr share ev
 (** Schedule parameters of one direction; all arbitrary. *)
 Record sched := mkSched {
   sc_tcp : list N;            (* segmentation of the front connection *)
+  sc_late : bool;             (* the front connection reports its end together with the last bytes *)
   sc_copy : list N;           (* buffer sizes of the proxy's copy loop (io.Copy: 32768 each) *)
   sc_ws : list (N * bool);    (* choices of the websocket message reader *)
   sc_app : list N;            (* buffer sizes of the final reader *)
@@ -282,7 +327,7 @@ Record sched := mkSched {
     TLSHelloConn into the dialled connection. *)
 Definition to_app (m : tmode) (cap chunk : N) (sc : sched) (stream : bytes)
   : list bytes * bytes :=
-  match sniff cap (br_new (mkConn stream (sc_tcp sc))) with
+  match sniff cap (br_new (mkConn stream (sc_tcp sc) (sc_late sc))) with
   | Ok (_, b1) =>
       let '(copied, _, b2) := breads cap (sc_copy sc) b1 in
       match m with
@@ -307,6 +352,7 @@ Definition to_client (m : tmode) (alloc_max max_read chunk : N) (sc : sched) (ws
       let '(copied, e, s') := side_reads (sc_copy sc) (sc_ws sc) (mkS None (side_writes chunk ws)) in
       (rechunk (sc_tcp sc) (concat copied), owed_after e s')
   | TLegacy =>
-      let '(copied, p') := tunnel_reads alloc_max max_read (sc_bufs sc) (filter nonempty ws) in
+      (* a zero-length Write stays in the pipe until a Read takes it (and returns no bytes) *)
+      let '(copied, p') := tunnel_reads alloc_max max_read (sc_bufs sc) ws in
       (rechunk (sc_tcp sc) (concat copied), concat p')
   end.
